@@ -1,0 +1,562 @@
+//go:build verif
+
+// Contracts for package uhppote, read by the /verif VC generator (govc).
+// This file contains comments only; it is compiled only with -tags verif.
+//
+// Ghost state (declared in /verif/spec/wire.spec): `sent` is the sequence of requests handed to
+// the driver, `recv` the sequence of replies handed back. Operations are verified with sendto and
+// the reflective codec executed on their real bodies (inlined); the callees under contract are the
+// driver interface, the wire codecs of package types and bcd.
+//
+// verif:package github.com/uhppoted/uhppote-core/uhppote
+package uhppote
+
+// ---- the driver interface ----------------------------------------------------------------------
+
+//@ func driver.BroadcastTo
+//@   params addr, request, callback
+//@   returns (res, err)
+//@   requires req: len(request) == 64 && addr != nil
+//@   modifies sent.n, sent.kind, sent.iplen, sent.ipb, sent.port, sent.bytes, recv.n, recv.len, recv.bytes
+//@   define N0 = old(sent.n)
+//@   define R0 = old(recv.n)
+//@   ensures sent:   sent.n == N0 + 1 && sent.kind[N0] == 1 && sent.port[N0] == addr.Port && sent.iplen[N0] == len(addr.IP)
+//@   ensures dest:   forall k int :: 0 <= k && k < len(addr.IP) ==> sent.ipb[N0][k] == addr.IP[k]
+//@   ensures bytes:  forall k int :: 0 <= k && k < 64 ==> sent.bytes[N0][k] == old(request[k])
+//@   ensures reply:  err == nil && request[1] != 150 ==> res != nil && recv.n == R0 + 1 && recv.len[R0] == len(res) && callback(res) &&
+//@                     (forall k int :: 0 <= k && k < len(res) ==> recv.bytes[R0][k] == res[k])
+//@   ensures norep:  err == nil && request[1] == 150 ==> res == nil && recv.n == R0
+//@   ensures fail:   err != nil ==> res == nil && recv.n == R0
+
+//@ func driver.SendUDP
+//@   params addr, request
+//@   returns (res, err)
+//@   requires req: len(request) == 64 && addr != nil
+//@   modifies sent.n, sent.kind, sent.iplen, sent.ipb, sent.port, sent.bytes, recv.n, recv.len, recv.bytes
+//@   define N0 = old(sent.n)
+//@   define R0 = old(recv.n)
+//@   ensures sent:   sent.n == N0 + 1 && sent.kind[N0] == 2 && sent.port[N0] == addr.Port && sent.iplen[N0] == len(addr.IP)
+//@   ensures dest:   forall k int :: 0 <= k && k < len(addr.IP) ==> sent.ipb[N0][k] == addr.IP[k]
+//@   ensures bytes:  forall k int :: 0 <= k && k < 64 ==> sent.bytes[N0][k] == old(request[k])
+//@   ensures reply:  err == nil && request[1] != 150 ==> res != nil && recv.n == R0 + 1 && recv.len[R0] == len(res) &&
+//@                     (forall k int :: 0 <= k && k < len(res) ==> recv.bytes[R0][k] == res[k])
+//@   ensures norep:  err == nil && request[1] == 150 ==> res == nil && recv.n == R0
+//@   ensures fail:   err != nil ==> res == nil && recv.n == R0
+
+//@ func driver.SendTCP
+//@   params addr, request
+//@   returns (res, err)
+//@   requires req: len(request) == 64 && addr != nil
+//@   modifies sent.n, sent.kind, sent.iplen, sent.ipb, sent.port, sent.bytes, recv.n, recv.len, recv.bytes
+//@   define N0 = old(sent.n)
+//@   define R0 = old(recv.n)
+//@   ensures sent:   sent.n == N0 + 1 && sent.kind[N0] == 3 && sent.port[N0] == addr.Port && sent.iplen[N0] == len(addr.IP)
+//@   ensures dest:   forall k int :: 0 <= k && k < len(addr.IP) ==> sent.ipb[N0][k] == addr.IP[k]
+//@   ensures bytes:  forall k int :: 0 <= k && k < 64 ==> sent.bytes[N0][k] == old(request[k])
+//@   ensures reply:  err == nil && request[1] != 150 ==> res != nil && recv.n == R0 + 1 && recv.len[R0] == len(res) &&
+//@                     (forall k int :: 0 <= k && k < len(res) ==> recv.bytes[R0][k] == res[k])
+//@   ensures norep:  err == nil && request[1] == 150 ==> res == nil && recv.n == R0
+//@   ensures fail:   err != nil ==> res == nil && recv.n == R0
+
+// the acceptance test handed to driver.BroadcastTo
+//@ func (*uhppote).udpBroadcastTo$1
+//@   params bytes
+//@   returns ok
+//@   requires client: u != nil
+//@   ensures accept: ok <==> (len(bytes) == 64 && bytes[4] + 256 * bytes[5] + 65536 * bytes[6] + 16777216 * bytes[7] == serialNumber)
+
+// ---- routing (C06) -----------------------------------------------------------------------------
+// A controller is reached directly when it is configured with a usable IPv4 address:port,
+// otherwise through the broadcast address (255.255.255.255:60000 when none is configured).
+
+//@ macro ctrl(u, id) = u.devices[id].Address.AddrPort
+//@ macro direct(u, id) = has(u.devices, id) && ctrl(u, id).ip.kind == 1 && ctrl(u, id).ip.bits != 0 && ctrl(u, id).port != 0
+//@ macro viaBroadcast(u, id) = !has(u.devices, id) || ctrl(u, id).ip.kind == 0 || ctrl(u, id).port == 0 || (ctrl(u, id).ip.kind == 1 && ctrl(u, id).ip.bits == 0)
+//@ macro dest4(i, bits, port) = sent.iplen[i] == 4 && wire.be32(sent.ipb[i], 0) == bits && sent.port[i] == port
+//@ macro routed(u, id, i) =
+//@     (viaBroadcast(u, id) ==> sent.kind[i] == 1 &&
+//@        (u.broadcastAddr.AddrPort.ip.kind == 1 ==> dest4(i, u.broadcastAddr.AddrPort.ip.bits, u.broadcastAddr.AddrPort.port)) &&
+//@        (u.broadcastAddr.AddrPort.ip.kind == 0 ==> dest4(i, 4294967295, 60000))) &&
+//@     (direct(u, id) && u.devices[id].Protocol == "tcp" ==> sent.kind[i] == 3 && dest4(i, ctrl(u, id).ip.bits, ctrl(u, id).port)) &&
+//@     (direct(u, id) && u.devices[id].Protocol != "tcp" ==> sent.kind[i] == 2 && dest4(i, ctrl(u, id).ip.bits, ctrl(u, id).port))
+//@ macro accepted(i, code, id) = recv.n == old(recv.n) + 1 && wire.accept(recv.bytes[old(recv.n)], recv.len[old(recv.n)], code, id)
+
+// ---- helpers under contract (keeps logging and routing out of the operations' path space) -----
+
+//@ func (*uhppote).debugf
+//@   params u, msg, err
+//@   requires client: u != nil
+//@   ensures nothing: true
+
+// the routing closure of sendto: exactly one driver call, on the route of the controller
+//@ func sendto$1
+//@   returns (res, err)
+//@   requires client: u != nil && u.driver != nil && len(m) == 64
+//@   define N0 = old(sent.n)
+//@   define R0 = old(recv.n)
+//@   ensures once:   sent.n == N0 + 1
+//@   ensures bytes:  forall k int :: 0 <= k && k < 64 ==> sent.bytes[N0][k] == m[k]
+//@   ensures route:  routed(u, serialNumber, N0)
+//@   ensures reply:  err == nil && m[1] != 150 ==> res != nil && recv.n == R0 + 1 && recv.len[R0] == len(res) &&
+//@                     (forall k int :: 0 <= k && k < len(res) ==> recv.bytes[R0][k] == res[k]) &&
+//@                     (sent.kind[N0] == 1 ==> len(res) == 64 && wire.u32(recv.bytes[R0], 4) == serialNumber)
+//@   ensures norep:  err == nil && m[1] == 150 ==> res == nil && recv.n == R0
+//@   ensures fail:   err != nil ==> res == nil && recv.n == R0
+
+// ---- card number formats (C07) ------------------------------------------------------------------
+
+//@ func isWiegand26
+//@   params card
+//@   returns ok
+//@   ensures w26: ok <==> uhppote.w26(card)
+
+//@ func isCardNumberValid
+//@   params cardNumber, formats
+//@   returns ok
+//@   ensures valid: ok <==> (len(formats) == 0 || (exists i int :: 0 <= i && i < len(formats) && (formats[i] == 0 || (formats[i] == 1 && uhppote.w26(cardNumber)))))
+//@   loop 1
+//@     invariant idx:  -1 <= rangeindex && rangeindex < len(formats) && len(formats) > 0
+//@     invariant none: forall k int :: 0 <= k && k <= rangeindex ==> !(formats[k] == 0 || (formats[k] == 1 && uhppote.w26(cardNumber)))
+//@     decreases len(formats) - rangeindex
+
+// ---- operations --------------------------------------------------------------------------------
+// ---- GENERATED by /verif/tools/gen_op_contracts.py: begin ----
+
+//@ func (*uhppote).ActivateKeypads
+//@   params u, controllerID, readers
+//@   returns (ok, err)
+//@   requires client: u != nil && u.driver != nil
+//@   define N0 = old(sent.n)
+//@   define B = sent.bytes[N0]
+//@   define R = recv.bytes[old(recv.n)]
+//@   ensures reject: controllerID == 0 ==> err != nil && sent.n == N0 && recv.n == old(recv.n)
+//@   ensures once:   !(controllerID == 0) ==> sent.n == N0 + 1
+//@   ensures wire:   !(controllerID == 0) ==> wire.header(B, 0xa4, controllerID) && wire.bool(B, 8, readers[1]) && wire.bool(B, 9, readers[2]) && wire.bool(B, 10, readers[3]) && wire.bool(B, 11, readers[4]) && wire.zero(B, 12, 64)
+//@   ensures route:  !(controllerID == 0) ==> routed(u, controllerID, N0)
+//@   ensures accept: err == nil ==> accepted(N0, 0xa4, controllerID) && R[8] <= 1
+//@   ensures result: err == nil ==> (ok <==> R[8] == 1)
+
+//@ func (*uhppote).AddTask
+//@   params u, deviceID, task
+//@   returns (ok, err)
+//@   requires client: u != nil && u.driver != nil
+//@   define N0 = old(sent.n)
+//@   define B = sent.bytes[N0]
+//@   define R = recv.bytes[old(recv.n)]
+//@   ensures reject: deviceID == 0 ==> err != nil && sent.n == N0 && recv.n == old(recv.n)
+//@   ensures once:   !(deviceID == 0) && ((task.From.abs == 0 && task.From.ns == 0) || (0 <= time.year(task.From.abs, task.From.loc) && time.year(task.From.abs, task.From.loc) <= 9999)) && ((task.To.abs == 0 && task.To.ns == 0) || (0 <= time.year(task.To.abs, task.To.loc) && time.year(task.To.abs, task.To.loc) <= 9999)) && 0 <= task.Start.hours && task.Start.hours <= 99 && 0 <= task.Start.minutes && task.Start.minutes <= 99 ==> sent.n == N0 + 1
+//@   ensures wire:   !(deviceID == 0) && ((task.From.abs == 0 && task.From.ns == 0) || (0 <= time.year(task.From.abs, task.From.loc) && time.year(task.From.abs, task.From.loc) <= 9999)) && ((task.To.abs == 0 && task.To.ns == 0) || (0 <= time.year(task.To.abs, task.To.loc) && time.year(task.To.abs, task.To.loc) <= 9999)) && 0 <= task.Start.hours && task.Start.hours <= 99 && 0 <= task.Start.minutes && task.Start.minutes <= 99 ==> wire.header(B, 0xa8, deviceID) && wire.date(B, 8, task.From.abs, task.From.ns, task.From.loc) && wire.date(B, 12, task.To.abs, task.To.ns, task.To.loc) && wire.bool(B, 16, task.Weekdays[1]) && wire.bool(B, 17, task.Weekdays[2]) && wire.bool(B, 18, task.Weekdays[3]) && wire.bool(B, 19, task.Weekdays[4]) && wire.bool(B, 20, task.Weekdays[5]) && wire.bool(B, 21, task.Weekdays[6]) && wire.bool(B, 22, task.Weekdays[0]) && wire.hhmm(B, 23, task.Start.hours, task.Start.minutes) && B[25] == task.Door && B[26] == task.Task % 256 && B[27] == task.Cards && wire.zero(B, 28, 64)
+//@   ensures route:  !(deviceID == 0) && ((task.From.abs == 0 && task.From.ns == 0) || (0 <= time.year(task.From.abs, task.From.loc) && time.year(task.From.abs, task.From.loc) <= 9999)) && ((task.To.abs == 0 && task.To.ns == 0) || (0 <= time.year(task.To.abs, task.To.loc) && time.year(task.To.abs, task.To.loc) <= 9999)) && 0 <= task.Start.hours && task.Start.hours <= 99 && 0 <= task.Start.minutes && task.Start.minutes <= 99 ==> routed(u, deviceID, N0)
+//@   ensures accept: err == nil ==> accepted(N0, 0xa8, deviceID) && R[8] <= 1
+//@   ensures result: err == nil ==> (ok <==> R[8] == 1)
+
+//@ func (*uhppote).ClearTaskList
+//@   params u, deviceID
+//@   returns (ok, err)
+//@   requires client: u != nil && u.driver != nil
+//@   define N0 = old(sent.n)
+//@   define B = sent.bytes[N0]
+//@   define R = recv.bytes[old(recv.n)]
+//@   ensures reject: deviceID == 0 ==> err != nil && sent.n == N0 && recv.n == old(recv.n)
+//@   ensures once:   !(deviceID == 0) ==> sent.n == N0 + 1
+//@   ensures wire:   !(deviceID == 0) ==> wire.header(B, 0xa6, deviceID) && wire.magic(B, 8) && wire.zero(B, 12, 64)
+//@   ensures route:  !(deviceID == 0) ==> routed(u, deviceID, N0)
+//@   ensures accept: err == nil ==> accepted(N0, 0xa6, deviceID) && R[8] <= 1
+//@   ensures result: err == nil ==> (ok <==> R[8] == 1)
+
+//@ func (*uhppote).ClearTimeProfiles
+//@   params u, deviceID
+//@   returns (ok, err)
+//@   requires client: u != nil && u.driver != nil
+//@   define N0 = old(sent.n)
+//@   define B = sent.bytes[N0]
+//@   define R = recv.bytes[old(recv.n)]
+//@   ensures reject: deviceID == 0 ==> err != nil && sent.n == N0 && recv.n == old(recv.n)
+//@   ensures once:   !(deviceID == 0) ==> sent.n == N0 + 1
+//@   ensures wire:   !(deviceID == 0) ==> wire.header(B, 0x8a, deviceID) && wire.magic(B, 8) && wire.zero(B, 12, 64)
+//@   ensures route:  !(deviceID == 0) ==> routed(u, deviceID, N0)
+//@   ensures accept: err == nil ==> accepted(N0, 0x8a, deviceID) && R[8] <= 1
+//@   ensures result: err == nil ==> (ok <==> R[8] == 1)
+
+//@ func (*uhppote).DeleteCards
+//@   params u, deviceID
+//@   returns (ok, err)
+//@   requires client: u != nil && u.driver != nil
+//@   define N0 = old(sent.n)
+//@   define B = sent.bytes[N0]
+//@   define R = recv.bytes[old(recv.n)]
+//@   ensures reject: deviceID == 0 ==> err != nil && sent.n == N0 && recv.n == old(recv.n)
+//@   ensures once:   !(deviceID == 0) ==> sent.n == N0 + 1
+//@   ensures wire:   !(deviceID == 0) ==> wire.header(B, 0x54, deviceID) && wire.magic(B, 8) && wire.zero(B, 12, 64)
+//@   ensures route:  !(deviceID == 0) ==> routed(u, deviceID, N0)
+//@   ensures accept: err == nil ==> accepted(N0, 0x54, deviceID) && R[8] <= 1
+//@   ensures result: err == nil ==> (ok <==> R[8] == 1)
+
+//@ func (*uhppote).RefreshTaskList
+//@   params u, deviceID
+//@   returns (ok, err)
+//@   requires client: u != nil && u.driver != nil
+//@   define N0 = old(sent.n)
+//@   define B = sent.bytes[N0]
+//@   define R = recv.bytes[old(recv.n)]
+//@   ensures reject: deviceID == 0 ==> err != nil && sent.n == N0 && recv.n == old(recv.n)
+//@   ensures once:   !(deviceID == 0) ==> sent.n == N0 + 1
+//@   ensures wire:   !(deviceID == 0) ==> wire.header(B, 0xac, deviceID) && wire.magic(B, 8) && wire.zero(B, 12, 64)
+//@   ensures route:  !(deviceID == 0) ==> routed(u, deviceID, N0)
+//@   ensures accept: err == nil ==> accepted(N0, 0xac, deviceID) && R[8] <= 1
+//@   ensures result: err == nil ==> (ok <==> R[8] == 1)
+
+//@ func (*uhppote).RestoreDefaultParameters
+//@   params u, controller
+//@   returns (ok, err)
+//@   requires client: u != nil && u.driver != nil
+//@   define N0 = old(sent.n)
+//@   define B = sent.bytes[N0]
+//@   define R = recv.bytes[old(recv.n)]
+//@   ensures reject: controller == 0 ==> err != nil && sent.n == N0 && recv.n == old(recv.n)
+//@   ensures once:   !(controller == 0) ==> sent.n == N0 + 1
+//@   ensures wire:   !(controller == 0) ==> wire.header(B, 0xc8, controller) && wire.magic(B, 8) && wire.zero(B, 12, 64)
+//@   ensures route:  !(controller == 0) ==> routed(u, controller, N0)
+//@   ensures accept: err == nil ==> accepted(N0, 0xc8, controller) && R[8] <= 1
+//@   ensures result: err == nil ==> (ok <==> R[8] == 1)
+
+//@ func (*uhppote).DeleteCard
+//@   params u, deviceID, cardNumber
+//@   returns (ok, err)
+//@   requires client: u != nil && u.driver != nil
+//@   define N0 = old(sent.n)
+//@   define B = sent.bytes[N0]
+//@   define R = recv.bytes[old(recv.n)]
+//@   ensures reject: deviceID == 0 ==> err != nil && sent.n == N0 && recv.n == old(recv.n)
+//@   ensures once:   !(deviceID == 0) ==> sent.n == N0 + 1
+//@   ensures wire:   !(deviceID == 0) ==> wire.header(B, 0x52, deviceID) && wire.u32(B, 8) == cardNumber && wire.zero(B, 12, 64)
+//@   ensures route:  !(deviceID == 0) ==> routed(u, deviceID, N0)
+//@   ensures accept: err == nil ==> accepted(N0, 0x52, deviceID) && R[8] <= 1
+//@   ensures result: err == nil ==> (ok <==> R[8] == 1)
+
+//@ func (*uhppote).GetCards
+//@   params u, deviceID
+//@   returns (n, err)
+//@   requires client: u != nil && u.driver != nil
+//@   define N0 = old(sent.n)
+//@   define B = sent.bytes[N0]
+//@   define R = recv.bytes[old(recv.n)]
+//@   ensures reject: deviceID == 0 ==> err != nil && sent.n == N0 && recv.n == old(recv.n)
+//@   ensures once:   !(deviceID == 0) ==> sent.n == N0 + 1
+//@   ensures wire:   !(deviceID == 0) ==> wire.header(B, 0x58, deviceID) && wire.zero(B, 8, 64)
+//@   ensures route:  !(deviceID == 0) ==> routed(u, deviceID, N0)
+//@   ensures accept: err == nil ==> accepted(N0, 0x58, deviceID)
+//@   ensures result: err == nil ==> n == wire.u32(R, 8)
+
+//@ func (*uhppote).GetEventIndex
+//@   params u, deviceID
+//@   returns (res, err)
+//@   requires client: u != nil && u.driver != nil
+//@   define N0 = old(sent.n)
+//@   define B = sent.bytes[N0]
+//@   define R = recv.bytes[old(recv.n)]
+//@   ensures reject: deviceID == 0 ==> err != nil && sent.n == N0 && recv.n == old(recv.n)
+//@   ensures once:   !(deviceID == 0) ==> sent.n == N0 + 1
+//@   ensures wire:   !(deviceID == 0) ==> wire.header(B, 0xb4, deviceID) && wire.zero(B, 8, 64)
+//@   ensures route:  !(deviceID == 0) ==> routed(u, deviceID, N0)
+//@   ensures accept: err == nil ==> accepted(N0, 0xb4, deviceID)
+//@   ensures result: err == nil ==> res != nil && res.SerialNumber == deviceID && res.Index == wire.u32(R, 8)
+
+//@ func (*uhppote).GetTime
+//@   params u, serialNumber
+//@   returns (res, err)
+//@   requires client: u != nil && u.driver != nil
+//@   define N0 = old(sent.n)
+//@   define B = sent.bytes[N0]
+//@   define R = recv.bytes[old(recv.n)]
+//@   ensures reject: serialNumber == 0 ==> err != nil && sent.n == N0 && recv.n == old(recv.n)
+//@   ensures once:   !(serialNumber == 0) ==> sent.n == N0 + 1
+//@   ensures wire:   !(serialNumber == 0) ==> wire.header(B, 0x32, serialNumber) && wire.zero(B, 8, 64)
+//@   ensures route:  !(serialNumber == 0) ==> routed(u, serialNumber, N0)
+//@   ensures accept: err == nil ==> accepted(N0, 0x32, serialNumber)
+//@   ensures result: err == nil ==> res != nil && res.SerialNumber == serialNumber
+
+//@ func (*uhppote).SetTime
+//@   params u, serialNumber, datetime
+//@   returns (res, err)
+//@   requires client: u != nil && u.driver != nil
+//@   define N0 = old(sent.n)
+//@   define B = sent.bytes[N0]
+//@   define R = recv.bytes[old(recv.n)]
+//@   ensures reject: serialNumber == 0 ==> err != nil && sent.n == N0 && recv.n == old(recv.n)
+//@   ensures once:   !(serialNumber == 0) && 0 <= time.year(datetime.abs, datetime.loc) && time.year(datetime.abs, datetime.loc) <= 9999 ==> sent.n == N0 + 1
+//@   ensures wire:   !(serialNumber == 0) && 0 <= time.year(datetime.abs, datetime.loc) && time.year(datetime.abs, datetime.loc) <= 9999 ==> wire.header(B, 0x30, serialNumber) && wire.datetime(B, 8, datetime.abs, datetime.loc) && wire.zero(B, 15, 64)
+//@   ensures route:  !(serialNumber == 0) && 0 <= time.year(datetime.abs, datetime.loc) && time.year(datetime.abs, datetime.loc) <= 9999 ==> routed(u, serialNumber, N0)
+//@   ensures accept: err == nil ==> accepted(N0, 0x30, serialNumber)
+//@   ensures result: err == nil ==> res != nil && res.SerialNumber == serialNumber
+
+//@ func (*uhppote).OpenDoor
+//@   params u, deviceID, door
+//@   returns (res, err)
+//@   requires client: u != nil && u.driver != nil
+//@   define N0 = old(sent.n)
+//@   define B = sent.bytes[N0]
+//@   define R = recv.bytes[old(recv.n)]
+//@   ensures reject: deviceID == 0 ==> err != nil && sent.n == N0 && recv.n == old(recv.n)
+//@   ensures once:   !(deviceID == 0) ==> sent.n == N0 + 1
+//@   ensures wire:   !(deviceID == 0) ==> wire.header(B, 0x40, deviceID) && B[8] == door && wire.zero(B, 9, 64)
+//@   ensures route:  !(deviceID == 0) ==> routed(u, deviceID, N0)
+//@   ensures accept: err == nil ==> accepted(N0, 0x40, deviceID) && R[8] <= 1
+//@   ensures result: err == nil ==> res != nil && res.SerialNumber == deviceID && (res.Succeeded <==> R[8] == 1)
+
+//@ func (*uhppote).RecordSpecialEvents
+//@   params u, deviceID, enable
+//@   returns (ok, err)
+//@   requires client: u != nil && u.driver != nil
+//@   define N0 = old(sent.n)
+//@   define B = sent.bytes[N0]
+//@   define R = recv.bytes[old(recv.n)]
+//@   ensures reject: deviceID == 0 ==> err != nil && sent.n == N0 && recv.n == old(recv.n)
+//@   ensures once:   !(deviceID == 0) ==> sent.n == N0 + 1
+//@   ensures wire:   !(deviceID == 0) ==> wire.header(B, 0x8e, deviceID) && wire.bool(B, 8, enable) && wire.zero(B, 9, 64)
+//@   ensures route:  !(deviceID == 0) ==> routed(u, deviceID, N0)
+//@   ensures accept: err == nil ==> accepted(N0, 0x8e, deviceID) && R[8] <= 1
+//@   ensures result: err == nil ==> (ok <==> R[8] == 1)
+
+//@ func (*uhppote).SetPCControl
+//@   params u, deviceID, enable
+//@   returns (ok, err)
+//@   requires client: u != nil && u.driver != nil
+//@   define N0 = old(sent.n)
+//@   define B = sent.bytes[N0]
+//@   define R = recv.bytes[old(recv.n)]
+//@   ensures reject: deviceID == 0 ==> err != nil && sent.n == N0 && recv.n == old(recv.n)
+//@   ensures once:   !(deviceID == 0) ==> sent.n == N0 + 1
+//@   ensures wire:   !(deviceID == 0) ==> wire.header(B, 0xa0, deviceID) && wire.magic(B, 8) && wire.bool(B, 12, enable) && wire.zero(B, 13, 64)
+//@   ensures route:  !(deviceID == 0) ==> routed(u, deviceID, N0)
+//@   ensures accept: err == nil ==> accepted(N0, 0xa0, deviceID) && R[8] <= 1
+//@   ensures result: err == nil ==> (ok <==> R[8] == 1)
+
+//@ func (*uhppote).SetInterlock
+//@   params u, controllerID, interlock
+//@   returns (ok, err)
+//@   requires client: u != nil && u.driver != nil
+//@   define N0 = old(sent.n)
+//@   define B = sent.bytes[N0]
+//@   define R = recv.bytes[old(recv.n)]
+//@   ensures reject: controllerID == 0 ==> err != nil && sent.n == N0 && recv.n == old(recv.n)
+//@   ensures once:   !(controllerID == 0) ==> sent.n == N0 + 1
+//@   ensures wire:   !(controllerID == 0) ==> wire.header(B, 0xa2, controllerID) && B[8] == interlock && wire.zero(B, 9, 64)
+//@   ensures route:  !(controllerID == 0) ==> routed(u, controllerID, N0)
+//@   ensures accept: err == nil ==> accepted(N0, 0xa2, controllerID) && R[8] <= 1
+//@   ensures result: err == nil ==> (ok <==> R[8] == 1)
+
+//@ func (*uhppote).SetEventIndex
+//@   params u, deviceID, index
+//@   returns (res, err)
+//@   requires client: u != nil && u.driver != nil
+//@   define N0 = old(sent.n)
+//@   define B = sent.bytes[N0]
+//@   define R = recv.bytes[old(recv.n)]
+//@   ensures reject: deviceID == 0 ==> err != nil && sent.n == N0 && recv.n == old(recv.n)
+//@   ensures once:   !(deviceID == 0) ==> sent.n == N0 + 1
+//@   ensures wire:   !(deviceID == 0) ==> wire.header(B, 0xb2, deviceID) && wire.u32(B, 8) == index && wire.magic(B, 12) && wire.zero(B, 16, 64)
+//@   ensures route:  !(deviceID == 0) ==> routed(u, deviceID, N0)
+//@   ensures accept: err == nil ==> accepted(N0, 0xb2, deviceID) && R[8] <= 1
+//@   ensures result: err == nil ==> res != nil && res.SerialNumber == deviceID && res.Index == index && (res.Changed <==> R[8] == 1)
+
+//@ func (*uhppote).GetDoorControlState
+//@   params u, serialNumber, door
+//@   returns (res, err)
+//@   requires client: u != nil && u.driver != nil
+//@   define N0 = old(sent.n)
+//@   define B = sent.bytes[N0]
+//@   define R = recv.bytes[old(recv.n)]
+//@   ensures reject: serialNumber == 0 ==> err != nil && sent.n == N0 && recv.n == old(recv.n)
+//@   ensures once:   !(serialNumber == 0) ==> sent.n == N0 + 1
+//@   ensures wire:   !(serialNumber == 0) ==> wire.header(B, 0x82, serialNumber) && B[8] == door && wire.zero(B, 9, 64)
+//@   ensures route:  !(serialNumber == 0) ==> routed(u, serialNumber, N0)
+//@   ensures accept: err == nil ==> accepted(N0, 0x82, serialNumber)
+//@   ensures result: err == nil ==> res != nil && res.SerialNumber == serialNumber && res.Door == R[8] && res.ControlState == R[9] && res.Delay == R[10]
+
+//@ func (*uhppote).SetDoorControlState
+//@   params u, serialNumber, door, state, delay
+//@   returns (res, err)
+//@   requires client: u != nil && u.driver != nil
+//@   define N0 = old(sent.n)
+//@   define B = sent.bytes[N0]
+//@   define R = recv.bytes[old(recv.n)]
+//@   ensures reject: serialNumber == 0 ==> err != nil && sent.n == N0 && recv.n == old(recv.n)
+//@   ensures once:   !(serialNumber == 0) ==> sent.n == N0 + 1
+//@   ensures wire:   !(serialNumber == 0) ==> wire.header(B, 0x80, serialNumber) && B[8] == door && B[9] == state % 256 && B[10] == delay && wire.zero(B, 11, 64)
+//@   ensures route:  !(serialNumber == 0) ==> routed(u, serialNumber, N0)
+//@   ensures accept: err == nil ==> accepted(N0, 0x80, serialNumber)
+//@   ensures result: err == nil ==> res != nil && res.SerialNumber == serialNumber && res.Door == R[8] && res.ControlState == R[9] && res.Delay == R[10]
+
+//@ func (*uhppote).SetDoorPasscodes
+//@   params u, controller, door, passcodes
+//@   returns (ok, err)
+//@   requires client: u != nil && u.driver != nil
+//@   define N0 = old(sent.n)
+//@   define B = sent.bytes[N0]
+//@   define R = recv.bytes[old(recv.n)]
+//@   define INVALID = controller == 0 || door < 1 || door > 4
+//@   ensures reject: INVALID ==> err != nil && sent.n == N0 && recv.n == old(recv.n)
+//@   ensures once:   !(INVALID) ==> sent.n == N0 + 1
+//@   ensures wire:   !(INVALID) ==> wire.header(B, 0x8c, controller) && B[8] == door && B[9] == 0 && B[10] == 0 && B[11] == 0 && wire.u32(B, 12) == ((len(passcodes) > 0 && passcodes[0] <= 999999) ? passcodes[0] : 0) && wire.u32(B, 16) == ((len(passcodes) > 1 && passcodes[1] <= 999999) ? passcodes[1] : 0) && wire.u32(B, 20) == ((len(passcodes) > 2 && passcodes[2] <= 999999) ? passcodes[2] : 0) && wire.u32(B, 24) == ((len(passcodes) > 3 && passcodes[3] <= 999999) ? passcodes[3] : 0) && wire.zero(B, 28, 64)
+//@   ensures route:  !(INVALID) ==> routed(u, controller, N0)
+//@   ensures accept: err == nil ==> accepted(N0, 0x8c, controller) && R[8] <= 1
+//@   ensures result: err == nil ==> (ok <==> R[8] == 1)
+
+//@ func (*uhppote).SetListener
+//@   params u, controller, address, interval
+//@   returns (ok, err)
+//@   requires client: u != nil && u.driver != nil
+//@   define N0 = old(sent.n)
+//@   define B = sent.bytes[N0]
+//@   define R = recv.bytes[old(recv.n)]
+//@   define INVALID = controller == 0 || !((address.ip.kind == 1 && address.ip.bits == 0 && address.port == 0) || (address.ip.kind == 1 && address.port != 0))
+//@   ensures reject: INVALID ==> err != nil && sent.n == N0 && recv.n == old(recv.n)
+//@   ensures once:   !(INVALID) ==> sent.n == N0 + 1
+//@   ensures wire:   !(INVALID) ==> wire.header(B, 0x90, controller) && wire.be32(B, 8) == address.ip.bits && wire.u16(B, 12) == address.port && B[14] == interval && wire.zero(B, 15, 64)
+//@   ensures route:  !(INVALID) ==> routed(u, controller, N0)
+//@   ensures accept: err == nil ==> accepted(N0, 0x90, controller) && R[8] <= 1
+//@   ensures result: err == nil ==> (ok <==> R[8] == 1)
+
+//@ func (*uhppote).SetAddress
+//@   params u, serialNumber, address, mask, gateway
+//@   returns (res, err)
+//@   requires client: u != nil && u.driver != nil
+//@   define N0 = old(sent.n)
+//@   define B = sent.bytes[N0]
+//@   define R = recv.bytes[old(recv.n)]
+//@   define INVALID = serialNumber == 0 || !(len(address) == 4 || (len(address) == 16 && address[0] == 0 && address[1] == 0 && address[2] == 0 && address[3] == 0 && address[4] == 0 && address[5] == 0 && address[6] == 0 && address[7] == 0 && address[8] == 0 && address[9] == 0 && address[10] == 255 && address[11] == 255)) || !(len(mask) == 4 || (len(mask) == 16 && mask[0] == 0 && mask[1] == 0 && mask[2] == 0 && mask[3] == 0 && mask[4] == 0 && mask[5] == 0 && mask[6] == 0 && mask[7] == 0 && mask[8] == 0 && mask[9] == 0 && mask[10] == 255 && mask[11] == 255)) || !(len(gateway) == 4 || (len(gateway) == 16 && gateway[0] == 0 && gateway[1] == 0 && gateway[2] == 0 && gateway[3] == 0 && gateway[4] == 0 && gateway[5] == 0 && gateway[6] == 0 && gateway[7] == 0 && gateway[8] == 0 && gateway[9] == 0 && gateway[10] == 255 && gateway[11] == 255))
+//@   ensures reject: INVALID ==> err != nil && sent.n == N0 && recv.n == old(recv.n)
+//@   ensures once:   !(INVALID) ==> sent.n == N0 + 1
+//@   ensures wire:   !(INVALID) ==> wire.header(B, 0x96, serialNumber) && B[8] == (len(address) == 4 ? address[0] : address[12]) && B[9] == (len(address) == 4 ? address[1] : address[13]) && B[10] == (len(address) == 4 ? address[2] : address[14]) && B[11] == (len(address) == 4 ? address[3] : address[15]) && B[12] == (len(mask) == 4 ? mask[0] : mask[12]) && B[13] == (len(mask) == 4 ? mask[1] : mask[13]) && B[14] == (len(mask) == 4 ? mask[2] : mask[14]) && B[15] == (len(mask) == 4 ? mask[3] : mask[15]) && B[16] == (len(gateway) == 4 ? gateway[0] : gateway[12]) && B[17] == (len(gateway) == 4 ? gateway[1] : gateway[13]) && B[18] == (len(gateway) == 4 ? gateway[2] : gateway[14]) && B[19] == (len(gateway) == 4 ? gateway[3] : gateway[15]) && wire.magic(B, 20) && wire.zero(B, 24, 64)
+//@   ensures route:  !(INVALID) ==> routed(u, serialNumber, N0)
+
+//@ func (*uhppote).GetListener
+//@   params u, serialNumber
+//@   returns (addr, interval, err)
+//@   requires client: u != nil && u.driver != nil
+//@   define N0 = old(sent.n)
+//@   define B = sent.bytes[N0]
+//@   define R = recv.bytes[old(recv.n)]
+//@   ensures reject: serialNumber == 0 ==> err != nil && sent.n == N0 && recv.n == old(recv.n)
+//@   ensures once:   !(serialNumber == 0) ==> sent.n == N0 + 1
+//@   ensures wire:   !(serialNumber == 0) ==> wire.header(B, 0x92, serialNumber) && wire.zero(B, 8, 64)
+//@   ensures route:  !(serialNumber == 0) ==> routed(u, serialNumber, N0)
+//@   ensures accept: err == nil ==> accepted(N0, 0x92, serialNumber)
+//@   ensures result: err == nil ==> addr.ip.kind == 1 && addr.ip.bits == wire.be32(R, 8) && addr.port == wire.u16(R, 12) && interval == R[14]
+
+//@ func (*uhppote).GetEvent
+//@   params u, deviceID, index
+//@   returns (res, err)
+//@   requires client: u != nil && u.driver != nil
+//@   define N0 = old(sent.n)
+//@   define B = sent.bytes[N0]
+//@   define R = recv.bytes[old(recv.n)]
+//@   ensures reject: deviceID == 0 ==> err != nil && sent.n == N0 && recv.n == old(recv.n)
+//@   ensures once:   !(deviceID == 0) ==> sent.n == N0 + 1
+//@   ensures wire:   !(deviceID == 0) ==> wire.header(B, 0xb0, deviceID) && wire.u32(B, 8) == index && wire.zero(B, 12, 64)
+//@   ensures route:  !(deviceID == 0) ==> routed(u, deviceID, N0)
+//@   ensures accept: err == nil ==> accepted(N0, 0xb0, deviceID) && R[13] <= 1 && R[12] != 255
+//@   ensures result: err == nil ==> (wire.u32(R, 8) == 0 ==> res == nil) && (wire.u32(R, 8) != 0 ==> res != nil && res.SerialNumber == deviceID && res.Index == wire.u32(R, 8) && res.Type == R[12] && (res.Granted <==> R[13] == 1) && res.Door == R[14] && res.Direction == R[15] && res.CardNumber == wire.u32(R, 16) && res.Reason == R[27])
+
+//@ func (*uhppote).GetCardByIndex
+//@   params u, deviceID, index
+//@   returns (res, err)
+//@   requires client: u != nil && u.driver != nil
+//@   define N0 = old(sent.n)
+//@   define B = sent.bytes[N0]
+//@   define R = recv.bytes[old(recv.n)]
+//@   ensures reject: deviceID == 0 ==> err != nil && sent.n == N0 && recv.n == old(recv.n)
+//@   ensures once:   !(deviceID == 0) ==> sent.n == N0 + 1
+//@   ensures wire:   !(deviceID == 0) ==> wire.header(B, 0x5c, deviceID) && wire.u32(B, 8) == index && wire.zero(B, 12, 64)
+//@   ensures route:  !(deviceID == 0) ==> routed(u, deviceID, N0)
+//@   ensures accept: err == nil ==> accepted(N0, 0x5c, deviceID)
+//@   ensures result: err == nil ==> ((wire.u32(R, 8) == 0 || wire.u32(R, 8) == 4294967295) ==> res == nil) && (wire.u32(R, 8) != 0 && wire.u32(R, 8) != 4294967295 ==> res != nil && res.CardNumber == wire.u32(R, 8) && res.Doors != nil && fresh(res.Doors) && res.Doors[1] == R[20] && res.Doors[2] == R[21] && res.Doors[3] == R[22] && res.Doors[4] == R[23] && res.PIN == wire.u24(R, 24))
+
+//@ func (*uhppote).GetCardByID
+//@   params u, deviceID, cardNumber
+//@   returns (res, err)
+//@   requires client: u != nil && u.driver != nil
+//@   define N0 = old(sent.n)
+//@   define B = sent.bytes[N0]
+//@   define R = recv.bytes[old(recv.n)]
+//@   ensures reject: deviceID == 0 ==> err != nil && sent.n == N0 && recv.n == old(recv.n)
+//@   ensures once:   !(deviceID == 0) ==> sent.n == N0 + 1
+//@   ensures wire:   !(deviceID == 0) ==> wire.header(B, 0x5a, deviceID) && wire.u32(B, 8) == cardNumber && wire.zero(B, 12, 64)
+//@   ensures route:  !(deviceID == 0) ==> routed(u, deviceID, N0)
+//@   ensures accept: err == nil ==> accepted(N0, 0x5a, deviceID) && (wire.u32(R, 8) == 0 || wire.u32(R, 8) == cardNumber)
+//@   ensures result: err == nil ==> (wire.u32(R, 8) == 0 ==> res == nil) && (wire.u32(R, 8) != 0 ==> res != nil && res.CardNumber == wire.u32(R, 8) && res.Doors != nil && fresh(res.Doors) && res.Doors[1] == R[20] && res.Doors[2] == R[21] && res.Doors[3] == R[22] && res.Doors[4] == R[23] && res.PIN == wire.u24(R, 24))
+
+//@ func (*uhppote).PutCard
+//@   params u, deviceID, card, formats
+//@   returns (ok, err)
+//@   requires client: u != nil && u.driver != nil
+//@   define N0 = old(sent.n)
+//@   define B = sent.bytes[N0]
+//@   define R = recv.bytes[old(recv.n)]
+//@   define INVALID = deviceID == 0 || card.CardNumber == 0 || card.CardNumber == 4294967295 || card.CardNumber == 16777215 || card.PIN > 999999 || (len(formats) > 0 && !(exists i int :: 0 <= i && i < len(formats) && (formats[i] == 0 || (formats[i] == 1 && uhppote.w26(card.CardNumber)))))
+//@   ensures reject: INVALID ==> err != nil && sent.n == N0 && recv.n == old(recv.n)
+//@   ensures once:   !(INVALID) && ((card.From.abs == 0 && card.From.ns == 0) || (0 <= time.year(card.From.abs, card.From.loc) && time.year(card.From.abs, card.From.loc) <= 9999)) && ((card.To.abs == 0 && card.To.ns == 0) || (0 <= time.year(card.To.abs, card.To.loc) && time.year(card.To.abs, card.To.loc) <= 9999)) ==> sent.n == N0 + 1
+//@   ensures wire:   !(INVALID) && ((card.From.abs == 0 && card.From.ns == 0) || (0 <= time.year(card.From.abs, card.From.loc) && time.year(card.From.abs, card.From.loc) <= 9999)) && ((card.To.abs == 0 && card.To.ns == 0) || (0 <= time.year(card.To.abs, card.To.loc) && time.year(card.To.abs, card.To.loc) <= 9999)) ==> wire.header(B, 0x50, deviceID) && wire.u32(B, 8) == card.CardNumber && wire.date(B, 12, card.From.abs, card.From.ns, card.From.loc) && wire.date(B, 16, card.To.abs, card.To.ns, card.To.loc) && B[20] == card.Doors[1] && B[21] == card.Doors[2] && B[22] == card.Doors[3] && B[23] == card.Doors[4] && wire.u24(B, 24) == card.PIN && wire.zero(B, 27, 64)
+//@   ensures route:  !(INVALID) && ((card.From.abs == 0 && card.From.ns == 0) || (0 <= time.year(card.From.abs, card.From.loc) && time.year(card.From.abs, card.From.loc) <= 9999)) && ((card.To.abs == 0 && card.To.ns == 0) || (0 <= time.year(card.To.abs, card.To.loc) && time.year(card.To.abs, card.To.loc) <= 9999)) ==> routed(u, deviceID, N0)
+//@   ensures accept: err == nil ==> accepted(N0, 0x50, deviceID) && R[8] <= 1
+//@   ensures result: err == nil ==> (ok <==> R[8] == 1)
+
+//@ func (*uhppote).GetTimeProfile
+//@   params u, deviceID, profileID
+//@   returns (res, err)
+//@   requires client: u != nil && u.driver != nil
+//@   define N0 = old(sent.n)
+//@   define B = sent.bytes[N0]
+//@   define R = recv.bytes[old(recv.n)]
+//@   ensures reject: deviceID == 0 ==> err != nil && sent.n == N0 && recv.n == old(recv.n)
+//@   ensures once:   !(deviceID == 0) ==> sent.n == N0 + 1
+//@   ensures wire:   !(deviceID == 0) ==> wire.header(B, 0x98, deviceID) && B[8] == profileID && wire.zero(B, 9, 64)
+//@   ensures route:  !(deviceID == 0) ==> routed(u, deviceID, N0)
+//@   ensures accept: err == nil ==> accepted(N0, 0x98, deviceID) && (R[8] == 0 || R[8] == profileID)
+//@   ensures result: err == nil ==> (R[8] == 0 ==> res == nil) && (R[8] != 0 ==> res != nil && res.ID == R[8] && res.LinkedProfileID == R[36])
+
+//@ func (*uhppote).SetTimeProfile
+//@   params u, deviceID, profile
+//@   returns (ok, err)
+//@   requires client: u != nil && u.driver != nil
+//@   define N0 = old(sent.n)
+//@   define B = sent.bytes[N0]
+//@   define R = recv.bytes[old(recv.n)]
+//@   define INVALID = deviceID == 0 || (profile.From.abs == 0 && profile.From.ns == 0) || (profile.To.abs == 0 && profile.To.ns == 0) || !(has(profile.Segments, 1) && !time.lexLt2(profile.Segments[1].End.hours, profile.Segments[1].End.minutes, profile.Segments[1].Start.hours, profile.Segments[1].Start.minutes)) || !(has(profile.Segments, 2) && !time.lexLt2(profile.Segments[2].End.hours, profile.Segments[2].End.minutes, profile.Segments[2].Start.hours, profile.Segments[2].Start.minutes)) || !(has(profile.Segments, 3) && !time.lexLt2(profile.Segments[3].End.hours, profile.Segments[3].End.minutes, profile.Segments[3].Start.hours, profile.Segments[3].Start.minutes))
+//@   ensures reject: INVALID ==> err != nil && sent.n == N0 && recv.n == old(recv.n)
+//@   ensures once:   !(INVALID) && ((profile.From.abs == 0 && profile.From.ns == 0) || (0 <= time.year(profile.From.abs, profile.From.loc) && time.year(profile.From.abs, profile.From.loc) <= 9999)) && ((profile.To.abs == 0 && profile.To.ns == 0) || (0 <= time.year(profile.To.abs, profile.To.loc) && time.year(profile.To.abs, profile.To.loc) <= 9999)) && 0 <= profile.Segments[1].Start.hours && profile.Segments[1].Start.hours <= 99 && 0 <= profile.Segments[1].Start.minutes && profile.Segments[1].Start.minutes <= 99 && 0 <= profile.Segments[1].End.hours && profile.Segments[1].End.hours <= 99 && 0 <= profile.Segments[1].End.minutes && profile.Segments[1].End.minutes <= 99 && 0 <= profile.Segments[2].Start.hours && profile.Segments[2].Start.hours <= 99 && 0 <= profile.Segments[2].Start.minutes && profile.Segments[2].Start.minutes <= 99 && 0 <= profile.Segments[2].End.hours && profile.Segments[2].End.hours <= 99 && 0 <= profile.Segments[2].End.minutes && profile.Segments[2].End.minutes <= 99 && 0 <= profile.Segments[3].Start.hours && profile.Segments[3].Start.hours <= 99 && 0 <= profile.Segments[3].Start.minutes && profile.Segments[3].Start.minutes <= 99 && 0 <= profile.Segments[3].End.hours && profile.Segments[3].End.hours <= 99 && 0 <= profile.Segments[3].End.minutes && profile.Segments[3].End.minutes <= 99 ==> sent.n == N0 + 1
+//@   ensures wire:   !(INVALID) && ((profile.From.abs == 0 && profile.From.ns == 0) || (0 <= time.year(profile.From.abs, profile.From.loc) && time.year(profile.From.abs, profile.From.loc) <= 9999)) && ((profile.To.abs == 0 && profile.To.ns == 0) || (0 <= time.year(profile.To.abs, profile.To.loc) && time.year(profile.To.abs, profile.To.loc) <= 9999)) && 0 <= profile.Segments[1].Start.hours && profile.Segments[1].Start.hours <= 99 && 0 <= profile.Segments[1].Start.minutes && profile.Segments[1].Start.minutes <= 99 && 0 <= profile.Segments[1].End.hours && profile.Segments[1].End.hours <= 99 && 0 <= profile.Segments[1].End.minutes && profile.Segments[1].End.minutes <= 99 && 0 <= profile.Segments[2].Start.hours && profile.Segments[2].Start.hours <= 99 && 0 <= profile.Segments[2].Start.minutes && profile.Segments[2].Start.minutes <= 99 && 0 <= profile.Segments[2].End.hours && profile.Segments[2].End.hours <= 99 && 0 <= profile.Segments[2].End.minutes && profile.Segments[2].End.minutes <= 99 && 0 <= profile.Segments[3].Start.hours && profile.Segments[3].Start.hours <= 99 && 0 <= profile.Segments[3].Start.minutes && profile.Segments[3].Start.minutes <= 99 && 0 <= profile.Segments[3].End.hours && profile.Segments[3].End.hours <= 99 && 0 <= profile.Segments[3].End.minutes && profile.Segments[3].End.minutes <= 99 ==> wire.header(B, 0x88, deviceID) && B[8] == profile.ID && wire.date(B, 9, profile.From.abs, profile.From.ns, profile.From.loc) && wire.date(B, 13, profile.To.abs, profile.To.ns, profile.To.loc) && wire.bool(B, 17, profile.Weekdays[1]) && wire.bool(B, 18, profile.Weekdays[2]) && wire.bool(B, 19, profile.Weekdays[3]) && wire.bool(B, 20, profile.Weekdays[4]) && wire.bool(B, 21, profile.Weekdays[5]) && wire.bool(B, 22, profile.Weekdays[6]) && wire.bool(B, 23, profile.Weekdays[0]) && wire.hhmm(B, 24, profile.Segments[1].Start.hours, profile.Segments[1].Start.minutes) && wire.hhmm(B, 26, profile.Segments[1].End.hours, profile.Segments[1].End.minutes) && wire.hhmm(B, 28, profile.Segments[2].Start.hours, profile.Segments[2].Start.minutes) && wire.hhmm(B, 30, profile.Segments[2].End.hours, profile.Segments[2].End.minutes) && wire.hhmm(B, 32, profile.Segments[3].Start.hours, profile.Segments[3].Start.minutes) && wire.hhmm(B, 34, profile.Segments[3].End.hours, profile.Segments[3].End.minutes) && B[36] == profile.LinkedProfileID && wire.zero(B, 37, 64)
+//@   ensures route:  !(INVALID) && ((profile.From.abs == 0 && profile.From.ns == 0) || (0 <= time.year(profile.From.abs, profile.From.loc) && time.year(profile.From.abs, profile.From.loc) <= 9999)) && ((profile.To.abs == 0 && profile.To.ns == 0) || (0 <= time.year(profile.To.abs, profile.To.loc) && time.year(profile.To.abs, profile.To.loc) <= 9999)) && 0 <= profile.Segments[1].Start.hours && profile.Segments[1].Start.hours <= 99 && 0 <= profile.Segments[1].Start.minutes && profile.Segments[1].Start.minutes <= 99 && 0 <= profile.Segments[1].End.hours && profile.Segments[1].End.hours <= 99 && 0 <= profile.Segments[1].End.minutes && profile.Segments[1].End.minutes <= 99 && 0 <= profile.Segments[2].Start.hours && profile.Segments[2].Start.hours <= 99 && 0 <= profile.Segments[2].Start.minutes && profile.Segments[2].Start.minutes <= 99 && 0 <= profile.Segments[2].End.hours && profile.Segments[2].End.hours <= 99 && 0 <= profile.Segments[2].End.minutes && profile.Segments[2].End.minutes <= 99 && 0 <= profile.Segments[3].Start.hours && profile.Segments[3].Start.hours <= 99 && 0 <= profile.Segments[3].Start.minutes && profile.Segments[3].Start.minutes <= 99 && 0 <= profile.Segments[3].End.hours && profile.Segments[3].End.hours <= 99 && 0 <= profile.Segments[3].End.minutes && profile.Segments[3].End.minutes <= 99 ==> routed(u, deviceID, N0)
+//@   ensures accept: err == nil ==> accepted(N0, 0x88, deviceID) && R[8] <= 1
+//@   ensures result: err == nil ==> (ok <==> R[8] == 1)
+
+//@ func (*uhppote).GetDevice
+//@   params u, serialNumber
+//@   returns (res, err)
+//@   requires client: u != nil && u.driver != nil
+//@   define N0 = old(sent.n)
+//@   define B = sent.bytes[N0]
+//@   define R = recv.bytes[old(recv.n)]
+//@   ensures reject: serialNumber == 0 ==> err != nil && sent.n == N0 && recv.n == old(recv.n)
+//@   ensures once:   !(serialNumber == 0) ==> sent.n == N0 + 1
+//@   ensures wire:   !(serialNumber == 0) ==> wire.header(B, 0x94, serialNumber) && wire.zero(B, 8, 64)
+//@   ensures route:  !(serialNumber == 0) ==> routed(u, serialNumber, N0)
+//@   ensures accept: err == nil ==> accepted(N0, 0x94, serialNumber)
+//@   ensures result: err == nil ==> res != nil && res.SerialNumber == serialNumber && res.Version == 256 * R[26] + R[27] && len(res.IpAddress) == 16 && res.IpAddress[12] == R[8] && res.IpAddress[15] == R[11] && len(res.MacAddress) == 6 && res.MacAddress[0] == R[20] && res.MacAddress[5] == R[25]
+
+//@ func (*uhppote).GetStatus
+//@   params u, serialNumber
+//@   returns (res, err)
+//@   requires client: u != nil && u.driver != nil
+//@   define N0 = old(sent.n)
+//@   define B = sent.bytes[N0]
+//@   define R = recv.bytes[old(recv.n)]
+//@   ensures reject: serialNumber == 0 ==> err != nil && sent.n == N0 && recv.n == old(recv.n)
+//@   ensures once:   !(serialNumber == 0) ==> sent.n == N0 + 1
+//@   ensures wire:   !(serialNumber == 0) ==> wire.header(B, 0x20, serialNumber) && wire.zero(B, 8, 64)
+//@   ensures route:  !(serialNumber == 0) ==> routed(u, serialNumber, N0)
+//@   ensures accept: err == nil ==> accepted(N0, 0x20, serialNumber)
+//@   ensures result: err == nil ==> res != nil && res.SerialNumber == serialNumber && res.SystemError == R[36] && res.SequenceId == wire.u32(R, 40) && res.SpecialInfo == R[48] && res.RelayState == R[49] && res.InputState == R[50] && (res.DoorState[1] <==> R[28] == 1) && (res.DoorState[2] <==> R[29] == 1) && (res.DoorState[3] <==> R[30] == 1) && (res.DoorState[4] <==> R[31] == 1) && (res.DoorButton[1] <==> R[32] == 1) && (res.DoorButton[2] <==> R[33] == 1) && (res.DoorButton[3] <==> R[34] == 1) && (res.DoorButton[4] <==> R[35] == 1) && (wire.u32(R, 8) == 0 ==> res.Event.Index == 0 && res.Event.Type == 0 && res.Event.CardNumber == 0 && res.Event.Timestamp.abs == 0) && (wire.u32(R, 8) != 0 ==> res.Event.Index == wire.u32(R, 8) && res.Event.Type == R[12] && (res.Event.Granted <==> R[13] == 1) && res.Event.Door == R[14] && res.Event.Direction == R[15] && res.Event.CardNumber == wire.u32(R, 16) && res.Event.Reason == R[27])
+
+// ---- GENERATED: end ----
